@@ -28,9 +28,9 @@ func runSynctest(o *batchOutcome, id, tier string, seed int64, b props.Batch, ru
 	bj, _ := json.Marshal(b)
 	timeout := time.Duration(b.TimeoutS) * time.Second
 	if timeout == 0 {
-		timeout = 30 * time.Minute
+		timeout = 4 * time.Minute
 		if tier == "thorough" {
-			timeout = 3 * time.Hour
+			timeout = 90 * time.Minute
 		}
 	}
 	args := []string{"-test.run", "^" + b.Args["test"] + "$", "-test.count=1", "-test.timeout", (timeout + time.Minute).String(), "-test.v"}
